@@ -7,14 +7,14 @@ import json
 import os
 import sys
 sys.path.insert(0, os.path.dirname(os.path.dirname(os.path.abspath(__file__))))
-from sgcheck import extract, facts  # noqa: E402
+from sgcheck import extract, facts, canon  # noqa: E402
 
 prog = facts.Program(extract.extract(), apply_renames=False)
 out = {}
 for f in prog.fns.values():
     if f.is_closure:
         continue
-    out[f.id] = facts.fingerprint(f)
+    out[f.id] = canon.fingerprint(f.d, f.crate)
 p = os.path.join(os.path.dirname(os.path.dirname(os.path.abspath(__file__))), "tables", "fn_fingerprints.json")
 with open(p, "w") as fh:
     adts = {a["id"]: [[v["name"], [[fd["name"], fd["ty"]] for fd in v["fields"]]] for v in a["variants"]] for a in prog.adts.values() if a.get("crate", "").startswith("ast_grep")}
